@@ -6,16 +6,28 @@ from INT_MAX); C truth values stay integers (b2z); statements are rendered in co
 style; the one `while` becomes recursion on fuel 65.  Output buffers are modelled as the list of
 stores `(index, value)` in program order; the fields of `struct cbor_decoder_result* result` as
 three variables.  A construct outside the subset raises Unsupported: the function is then tied to
-the model by the correspondence runs only."""
+the model by the correspondence runs only.
+
+Extensions (second wave).  A `float`/`double` parameter is rendered as its IEEE-754 bit pattern
+(an integer): the union read `((union _cbor_float_helper){.as_float = value}).as_uint` is the
+identity on bits and `isnan(value)` (`__builtin_isnan`) is the bit test `isnan32`/`isnan64` of
+GenLeafTypes.v.  Conversions to a signed type narrower than the source insert `swrapz`.  A function
+translated in *ub mode* returns an `option`: every shift whose amount is not a literal inside the
+width of the promoted left operand, every division by a non-literal and every read of the `utf8d`
+table contributes a definedness test, evaluated (guarded by the conditions of the enclosing `?:`,
+`&&`, `||`) before the statement it occurs in; `None` is "undefined behaviour".  A function with
+return mode `ptr` returns `option Z`: `Some n` is "the allocator was asked for n bytes", `None`
+is NULL without a request."""
 import os
 from . import cast
 
 class Unsupported(Exception):
     pass
 
-UNSIGNED = {"size_t": 64, "uint64_t": 64, "unsigned long": 64, "uint32_t": 32, "unsigned int": 32, "uint16_t": 16,
+UNSIGNED = {"size_t": 64, "uint64_t": 64, "unsigned long": 64, "unsigned long long": 64, "uint32_t": 32, "unsigned int": 32, "uint16_t": 16,
             "unsigned short": 16, "uint8_t": 8, "unsigned char": 8, "_Bool": 1, "bool": 1}
-SIGNED = {"int": 32, "long": 64, "int8_t": 8}
+SIGNED = {"int": 32, "long": 64, "long long": 64, "int8_t": 8, "signed char": 8, "short": 16, "int16_t": 16, "int32_t": 32, "char": 8}
+FLOATS = {"float": 32, "double": 64}
 STATUS = {"CBOR_DECODER_FINISHED": 0, "CBOR_DECODER_NEDATA": 1, "CBOR_DECODER_ERROR": 2}
 
 def ctype(n):
@@ -43,6 +55,102 @@ class Ctx:
         self.tailcall_pair = False
         self.stored = False
         self.src = None; self.incs = None; self.defs = None
+        self.floats = {}          # float/double parameters rendered as bit patterns: name -> width
+        self.ptrs = set()         # opaque pointer parameters (only handed on to _cbor_realloc)
+        self.ptrlocals = set()    # pointer-typed locals of a `ptr`-returning function (option values)
+        self.unions = {}          # local union helper variable -> float parameter it was initialised from
+        self.unassigned = set()   # locals declared without an initialiser and not yet assigned
+        self.ub = False           # ub mode: the function returns an option, None = undefined behaviour
+        self.checks = []          # pending definedness tests of the statement being translated
+        self.guards = []          # conditions under which the sub-expression being translated is evaluated
+        self.ret_mode = "int"
+        self.sfields = None       # (parameter, {int field: width}, {pointer fields}) of a struct whose integer fields are state s_<f>
+        self.skipped = set()      # parameters that are not rendered (only copied into fresh memory)
+        self.requests = set()     # pointer locals bound to the answer of an allocator request
+        self.req = None           # the request made so far on this path (text), None = none
+        self.granted = False      # ptr mode with the allocator's answer as the input a_granted
+        self.flocals = set()      # double / float locals of a function in float mode (symbolic values, type fval)
+        self.inouts = []          # integer in/out pointer parameters (`*p` is the variable p_<name>), in order
+        self.bytes = {}           # input byte pointer -> the parameter holding its length
+        self.status = None        # (parameter name, [field names]) of a struct out-parameter
+        self.status_set = set()
+        self.known_ub = {}        # ub-mode callees with in/out parameters: name -> kinds
+        self.loop_stack = []      # frames of the loops being translated: {tup, inc, gotos, has_exit}
+        self.end_stack = []       # what an exhausted statement list means (inside a loop body: the state tuple)
+        self.active_labels = set()
+        self.labels = {}          # label decl id -> statements from the label to the end of the function
+        self.indet = False        # locals without a value at loop entry become indeterminate parameters u_<name>
+        self.indet_params = []
+        self.fuel = "65%nat"
+    def fail(self):
+        """undefined behaviour: None, or inside a loop body the state with the exit code -1"""
+        if self.loop_stack:
+            return "(let x_exit := (-1) in %s)" % self.loop_stack[-1]["tup"]
+        return "None"
+    def need(self, cond):
+        """record a definedness test for the expression being translated (ub mode only)"""
+        if not self.ub:
+            return
+        for pol, c in reversed(self.guards):
+            cond = "(implb %s %s)" % (c, cond) if pol else "(%s || %s)" % (c, cond)
+        self.checks.append(cond)
+    def take(self):
+        c, self.checks = self.checks, []
+        return c
+    def tu(self):
+        if getattr(self, "_tu", None) is None:
+            self._tu = cast.ast_dump(self.src, self.incs, None, self.defs)
+        return self._tu
+    def enum_value(self, name):
+        """value of an enumeration constant (sequential from 0, or its explicit literal initialiser)"""
+        def walk(n):
+            if isinstance(n, dict):
+                if n.get("kind") == "EnumDecl":
+                    v = -1
+                    for c in n.get("inner", []):
+                        if c.get("kind") != "EnumConstantDecl":
+                            continue
+                        init = [x for x in c.get("inner", []) if x.get("kind") not in ("FullComment",)]
+                        if init:
+                            iv = const_eval(init[-1])
+                            if iv is None and init[-1].get("kind") == "ConstantExpr" and "value" in init[-1]:
+                                iv = int(init[-1]["value"])
+                            if iv is None:
+                                return ("bad",)
+                            v = iv
+                        else:
+                            v += 1
+                        if c.get("name") == name:
+                            return ("ok", v)
+                for c in n.get("inner", []):
+                    r = walk(c)
+                    if r:
+                        return r
+            return None
+        for d in self.tu():
+            r = walk(d)
+            if r and r[0] == "ok":
+                return r[1]
+            if r:
+                break
+        raise Unsupported("enum constant " + name)
+    def struct_fields(self, sname):
+        """[(field name, type)] of `struct sname`"""
+        def walk(n):
+            if isinstance(n, dict):
+                if n.get("kind") == "RecordDecl" and n.get("name") == sname and n.get("completeDefinition"):
+                    return [(c["name"], c.get("type", {}).get("desugaredQualType") or c.get("type", {}).get("qualType", ""))
+                            for c in n.get("inner", []) if c.get("kind") == "FieldDecl"]
+                for c in n.get("inner", []):
+                    r = walk(c)
+                    if r:
+                        return r
+            return None
+        for d in self.tu():
+            r = walk(d)
+            if r:
+                return r
+        raise Unsupported("struct " + sname)
     def global_const(self, name):
         docs = cast.ast_dump(self.src, self.incs, name, self.defs)
         for d in docs:
@@ -56,6 +164,144 @@ class Ctx:
 
 def wrapz(w, e):
     return "(wrapz %d %s)" % (w, e)
+
+def guard(chk, txt, cx=None):
+    if not chk:
+        return txt
+    return "(if negb (%s) then %s else\n  %s)" % (" && ".join(chk), cx.fail() if cx is not None else "None", txt)
+
+def lit(n):
+    """value of an integer literal (through casts / parens), or None"""
+    m = cast.strip(n)
+    if m.get("kind") == "IntegerLiteral":
+        return int(m["value"])
+    return None
+
+def const_eval(n):
+    """value of a compile-time integer expression made of literals, + - *, parens and casts; or None"""
+    k = n.get("kind")
+    if k in ("ParenExpr", "ConstantExpr"):
+        return const_eval(n["inner"][-1])
+    if k == "IntegerLiteral":
+        return int(n["value"])
+    if k in ("ImplicitCastExpr", "CStyleCastExpr") and n.get("castKind") in ("IntegralCast", "NoOp"):
+        v = const_eval(n["inner"][-1])
+        if v is None:
+            return None
+        try:
+            w, signed = width(ctype(n))
+        except Unsupported:
+            return None
+        if signed:
+            return v if -(1 << (w - 1)) <= v < (1 << (w - 1)) else None
+        return v % (1 << w)
+    if k == "BinaryOperator" and n.get("opcode") in ("+", "-", "*"):
+        a, b = (const_eval(x) for x in n["inner"])
+        if a is None or b is None:
+            return None
+        r = {"+": a + b, "-": a - b, "*": a * b}[n["opcode"]]
+        try:
+            w, signed = width(ctype(n))
+        except Unsupported:
+            return None
+        if signed:
+            return r if -(1 << (w - 1)) <= r < (1 << (w - 1)) else None
+        return r % (1 << w)
+    return None
+
+def nonneg(n):
+    """syntactic: the (signed-typed) expression cannot be negative - a promoted unsigned value, a
+    non-negative literal, or + * / % >> & | of such"""
+    k = n.get("kind")
+    if k in ("ParenExpr", "ConstantExpr"):
+        return nonneg(n["inner"][-1])
+    if k == "IntegerLiteral":
+        return int(n["value"]) >= 0
+    if k in ("ImplicitCastExpr", "CStyleCastExpr"):
+        ck = n.get("castKind")
+        inner = n["inner"][-1]
+        if ck in ("LValueToRValue", "NoOp"):
+            try:
+                return not width(ctype(n))[1]
+            except Unsupported:
+                return False
+        if ck == "IntegralCast":
+            try:
+                w, signed = width(ctype(n)); ws, ss = width(ctype(inner))
+            except Unsupported:
+                return False
+            if not signed:
+                return True
+            return (not ss and ws < w) or (ss and ws <= w and nonneg(inner))
+        return False
+    if k == "DeclRefExpr":
+        try:
+            return not width(ctype(n))[1]
+        except Unsupported:
+            return False
+    if k == "BinaryOperator":
+        op = n.get("opcode")
+        a, b = n["inner"]
+        if op in ("+", "*", "/", "%", ">>", "|"):
+            return nonneg(a) and nonneg(b)
+        if op == "&":
+            return nonneg(a) or nonneg(b)
+    return False
+
+SIZEOF_CONFIG = {"struct _cbor_stack_record": "gen_sizeof_rec", "cbor_item_t": "gen_sizeof_item", "struct cbor_item_t": "gen_sizeof_item",
+                 "struct cbor_pair": "gen_sizeof_pair", "struct cbor_indefinite_string_data": "gen_sizeof_isd"}
+
+def is_null(n):
+    m = n
+    while m.get("kind") in ("ParenExpr", "ImplicitCastExpr", "CStyleCastExpr"):
+        if m.get("castKind") == "NullToPointer":
+            return True
+        m = m["inner"][-1]
+    return False
+
+def is_request(n, cx):
+    m = cast.strip(n)
+    return m.get("kind") == "DeclRefExpr" and m["referencedDecl"]["name"] in cx.requests
+
+def float_param(n, cx):
+    """the float/double parameter an expression denotes (through casts, incl. float<->double conversions)"""
+    m = cast.strip(n)
+    if m.get("kind") == "DeclRefExpr" and m["referencedDecl"]["name"] in cx.floats:
+        return m["referencedDecl"]["name"]
+    return None
+
+def union_bits(n, cx):
+    """`.as_uint` of a union helper initialised from a float parameter: the parameter's bits"""
+    w, signed = width(ctype(n))
+    base = cast.strip(n["inner"][0])
+    if not ctype(base).startswith("union "):
+        raise Unsupported("member access")
+    fp = None
+    if base.get("kind") == "CompoundLiteralExpr":
+        il = base["inner"][0]
+        fp = union_init(il, cx)
+    elif base.get("kind") == "DeclRefExpr" and base["referencedDecl"]["name"] in cx.unions:
+        fp = cx.unions[base["referencedDecl"]["name"]]
+    if fp is None or signed or cx.floats[fp] != w:
+        raise Unsupported("union read")
+    return "v_" + fp
+
+def union_init(il, cx):
+    """InitListExpr of a union helper `{.as_float = <float parameter>}` -> parameter name"""
+    if il.get("kind") != "InitListExpr" or not ctype(il).startswith("union "):
+        return None
+    fld = il.get("field", {})
+    ft = fld.get("type", {}).get("qualType", "")
+    inits = [x for x in il.get("inner", [])]
+    if ft not in FLOATS or len(inits) != 1:
+        return None
+    m = inits[0]
+    # no conversion may sit between the parameter and the member (float -> double changes the bits)
+    while m.get("kind") in ("ParenExpr",) or (m.get("kind") == "ImplicitCastExpr" and m.get("castKind") in ("LValueToRValue", "NoOp")):
+        m = m["inner"][-1]
+    if m.get("kind") == "DeclRefExpr" and m["referencedDecl"]["name"] in cx.floats and cx.floats[m["referencedDecl"]["name"]] == FLOATS[ft]:
+        return m["referencedDecl"]["name"]
+    return None
 
 def E(n, cx):
     k = n.get("kind")
@@ -74,7 +320,13 @@ def E(n, cx):
             w, signed = width(ctype(n))
             e = E(inner, cx)
             if signed:
-                return e
+                ws, ss = width(ctype(inner))
+                if ws < w or (ss and ws <= w):
+                    return e          # value-preserving
+                v = lit(inner)
+                if v is not None and -(1 << (w - 1)) <= v < (1 << (w - 1)):
+                    return e
+                return "(swrapz %d %s)" % (w, e)
             if inner.get("kind") == "IntegerLiteral" and 0 <= int(inner["value"]) < (1 << w):
                 return e
             return wrapz(w, e)
@@ -86,37 +338,72 @@ def E(n, cx):
         if d.get("kind") == "EnumConstantDecl":
             if d["name"] in STATUS:
                 return str(STATUS[d["name"]])
-            raise Unsupported("enum constant " + d["name"])
+            return str(cx.enum_value(d["name"]))
+        if d["name"] in cx.requests:
+            return "(b2z a_granted)"      # a pointer as a truth value: non-null iff the allocator granted the request
+        if d["name"] in cx.skipped:
+            raise Unsupported("use of the unrendered parameter " + d["name"])
+        if d["name"] in cx.floats:
+            raise Unsupported("floating-point value used outside isnan / the union helper")
+        if d["name"] in cx.unassigned:
+            raise Unsupported("read of an uninitialised local")
         if d.get("kind") == "VarDecl" and d["name"] not in cx.bound:
             return str(cx.global_const(d["name"]))
+        width(ctype(n))   # integer-typed
         return "v_" + d["name"]
     if k == "UnaryExprOrTypeTraitExpr":
         if n.get("name") == "sizeof":
-            w, _ = width(n.get("argType", {}).get("qualType", "?"))
+            at = n.get("argType", {}).get("qualType", "?")
+            if at in SIZEOF_CONFIG:
+                return "(Z.of_N %s)" % SIZEOF_CONFIG[at]    # measured on the build (Gen_config)
+            w, _ = width(at)
             return str(w // 8)
         raise Unsupported("type trait")
     if k == "BinaryOperator":
         op = n["opcode"]
         a, b = n["inner"]
+        if op in ("&&", "||"):
+            ea = E(a, cx)
+            cx.guards.append((op == "&&", "(nz %s)" % ea))
+            try:
+                eb = E(b, cx)
+            finally:
+                cx.guards.pop()
+            return "(b2z (nz %s %s nz %s))" % (ea, op, eb)
+        if op == ",":
+            raise Unsupported("operator ,")
+        if op in ("==", "!=") and cx.granted and (is_request(a, cx) and is_null(b) or is_request(b, cx) and is_null(a)):
+            return "(b2z (negb a_granted))" if op == "==" else "(b2z a_granted)"
         ea, eb = E(a, cx), E(b, cx)
         if op in ("<", "<=", ">", ">=", "==", "!="):
+            width(ctype(a)); width(ctype(b))      # integer comparison
             cmp_ = {"<": "<?", "<=": "<=?", ">": ">?", ">=": ">=?", "==": "=?"}.get(op)
             if op == "!=":
                 return "(b2z (negb (%s =? %s)))" % (ea, eb)
             return "(b2z (%s %s %s))" % (ea, cmp_, eb)
-        if op == "&&":
-            return "(b2z (nz %s && nz %s))" % (ea, eb)
-        if op == "||":
-            return "(b2z (nz %s || nz %s))" % (ea, eb)
         w, signed = width(ctype(n))
         if op in ("+", "-", "*"):
             r = "(%s %s %s)" % (ea, op, eb)
             return r if signed else wrapz(w, r)
-        if op == ">>":
-            return "(Z.shiftr %s %s)" % (ea, eb)
-        if op == "<<":
+        if op in (">>", "<<"):
+            v = lit(b)
+            if not (v is not None and 0 <= v < w):
+                cx.need("((0 <=? %s) && (%s <? %d))" % (eb, eb, w))
+            if op == ">>":
+                return "(Z.shiftr %s %s)" % (ea, eb)
             r = "(Z.shiftl %s %s)" % (ea, eb)
             return r if signed else wrapz(w, r)
+        if op in ("/", "%"):
+            v = lit(b)
+            if v is None or v == 0:
+                if not cx.ub:
+                    raise Unsupported("division by a non-literal")
+                cx.need("(nz %s)" % eb)
+            if signed and not (nonneg(a) and v is not None and v > 0):
+                return "(%s %s %s)" % ("Z.quot" if op == "/" else "Z.rem", ea, eb)
+            # unsigned operands, or an int dividend that cannot be negative with a positive literal divisor:
+            # C's truncating division is the floor division
+            return "(%s %s %s)" % (ea, "/" if op == "/" else "mod", eb)
         if op == "&":
             return "(Z.land %s %s)" % (ea, eb)
         if op == "|":
@@ -126,25 +413,77 @@ def E(n, cx):
         op = n["opcode"]
         if op == "!":
             return "(b2z (negb (nz %s)))" % E(n["inner"][0], cx)
+        if op == "-":
+            w, signed = width(ctype(n))
+            e = "(- %s)" % E(n["inner"][0], cx)
+            return e if signed else wrapz(w, e)
+        if op == "+":
+            width(ctype(n))
+            return E(n["inner"][0], cx)
         if op == "*":
             # *(source + k)
             p = cast.strip(n["inner"][0])
+            if p.get("kind") == "DeclRefExpr" and p["referencedDecl"]["name"] in cx.inouts:
+                width(ctype(n))
+                return "p_" + p["referencedDecl"]["name"]
             off = ptr_off(p, cx)
             if off is not None:
                 return "(v_%s %d)" % off
         raise Unsupported("unary " + op)
     if k == "ArraySubscriptExpr":
+        base, idx = n["inner"]
+        b = cast.strip(base)
+        if b.get("kind") == "DeclRefExpr" and b["referencedDecl"]["name"] in cx.sources:
+            i = const_eval(idx)
+            if i is not None and i >= 0:
+                return "(v_%s %d)" % (b["referencedDecl"]["name"], i)
+        if b.get("kind") == "DeclRefExpr" and b["referencedDecl"]["name"] in cx.bytes and cx.ub:
+            ei = E(idx, cx)
+            cx.need("((0 <=? %s) && (%s <? v_%s))" % (ei, ei, cx.bytes[b["referencedDecl"]["name"]]))
+            return "(v_%s %s)" % (b["referencedDecl"]["name"], ei)
+        if (b.get("kind") == "DeclRefExpr" and b["referencedDecl"].get("kind") == "VarDecl" and b["referencedDecl"]["name"] == "utf8d"
+                and b["referencedDecl"]["name"] not in cx.bound and cx.ub and "const" in b.get("type", {}).get("qualType", "")):
+            # the DFA table of unicode.c (Gen_utf8d.gen_utf8d); an index outside the table is undefined behaviour
+            ei = E(idx, cx)
+            cx.need("((0 <=? %s) && (%s <? Z.of_nat (length gen_utf8d)))" % (ei, ei))
+            return "(tblz gen_utf8d %s)" % ei
         raise Unsupported("array read")
     if k == "MemberExpr":
         base = cast.strip(n["inner"][0])
         if n.get("isArrow") and base.get("kind") == "DeclRefExpr" and base["referencedDecl"]["name"] == cx.result:
             return "r_" + n["name"]
+        if n.get("isArrow") and cx.sfields and base.get("kind") == "DeclRefExpr" and base["referencedDecl"]["name"] == cx.sfields[0] \
+                and n["name"] in cx.sfields[1]:
+            return "s_" + n["name"]
+        if n.get("isArrow") and cx.status and base.get("kind") == "DeclRefExpr" and base["referencedDecl"]["name"] == cx.status[0]:
+            if n["name"] not in cx.status_set:
+                raise Unsupported("read of a field of the out-parameter before it is assigned")
+            return "t_" + n["name"]
+        if not n.get("isArrow"):
+            return union_bits(n, cx)
         raise Unsupported("member access")
     if k == "ConditionalOperator":
         c, a, b = n["inner"]
-        return "(if nz %s then %s else %s)" % (E(c, cx), E(a, cx), E(b, cx))
+        ec = E(c, cx)
+        cx.guards.append((True, "(nz %s)" % ec))
+        try:
+            ea = E(a, cx)
+        finally:
+            cx.guards.pop()
+        cx.guards.append((False, "(nz %s)" % ec))
+        try:
+            eb = E(b, cx)
+        finally:
+            cx.guards.pop()
+        return "(if nz %s then %s else %s)" % (ec, ea, eb)
     if k == "CallExpr":
         f = cast.strip(n["inner"][0])
+        if f.get("kind") == "DeclRefExpr" and f["referencedDecl"]["name"] in ("__builtin_isnan", "__builtin_isnanf"):
+            args = n["inner"][1:]
+            fp = float_param(args[0], cx) if len(args) == 1 else None
+            if fp is None:
+                raise Unsupported("isnan of something other than a float parameter")
+            return "(b2z (isnan%d v_%s))" % (cx.floats[fp], fp)
         if f.get("kind") == "DeclRefExpr" and f["referencedDecl"]["name"] in cx.known:
             name = f["referencedDecl"]["name"]
             args = n["inner"][1:]
@@ -166,6 +505,89 @@ def E(n, cx):
         raise Unsupported("call")
     raise Unsupported("expression " + str(k))
 
+def P(n, cx):
+    """pointer-valued expression of a `ptr`-returning function -> option Z:
+    Some n = the result of asking the allocator for n bytes, None = NULL without a request"""
+    k = n.get("kind")
+    if k in ("ParenExpr", "ConstantExpr"):
+        return P(n["inner"][-1], cx)
+    if k in ("ImplicitCastExpr", "CStyleCastExpr"):
+        ck = n.get("castKind")
+        if ck == "NullToPointer":
+            return "None"
+        if ck in ("LValueToRValue", "NoOp", "BitCast"):
+            return P(n["inner"][-1], cx)
+        raise Unsupported("pointer cast " + str(ck))
+    if k == "DeclRefExpr" and n["referencedDecl"]["name"] in cx.ptrlocals:
+        return "q_" + n["referencedDecl"]["name"]
+    if k == "ConditionalOperator":
+        c, a, b = n["inner"]
+        return "(if nz %s then %s else %s)" % (E(c, cx), P(a, cx), P(b, cx))
+    if k == "CallExpr":
+        f = cast.strip(n["inner"][0])
+        args = n["inner"][1:]
+        fn = f.get("referencedDecl", {}).get("name") if f.get("kind") == "DeclRefExpr" else None
+        if fn == "_cbor_malloc" and len(args) == 1:
+            return "(Some %s)" % E(args[0], cx)
+        if fn == "_cbor_realloc" and len(args) == 2:
+            p = cast.strip(args[0])
+            if p.get("kind") == "DeclRefExpr" and p["referencedDecl"]["name"] in cx.ptrs:
+                return "(Some %s)" % E(args[1], cx)
+            raise Unsupported("realloc of something other than the pointer parameter")
+        raise Unsupported("pointer-valued call")
+    raise Unsupported("pointer expression " + str(k))
+
+def F(n, cx):
+    """floating-point expression of a float-returning function -> symbolic value (PHalfShape.fval):
+    ldexp stays an uninterpreted constructor, INFINITY / NAN / unary minus / the conversion to float are constructors"""
+    k = n.get("kind")
+    if k in ("ParenExpr", "ConstantExpr"):
+        return F(n["inner"][-1], cx)
+    t = ctype(n)
+    if t not in FLOATS:
+        raise Unsupported("floating-point expression of type " + t)
+    if k in ("ImplicitCastExpr", "CStyleCastExpr"):
+        ck = n.get("castKind")
+        inner = n["inner"][-1]
+        if ck in ("LValueToRValue", "NoOp"):
+            return F(inner, cx)
+        if ck == "FloatingCast":
+            ti = ctype(inner)
+            if ti not in FLOATS:
+                raise Unsupported("floating cast from " + ti)
+            if FLOATS[t] < FLOATS[ti]:
+                return "(FCast32 %s)" % F(inner, cx)
+            return F(inner, cx)      # float -> double is exact
+        raise Unsupported("floating cast " + str(ck))
+    if k == "DeclRefExpr" and n["referencedDecl"]["name"] in cx.flocals:
+        if n["referencedDecl"]["name"] in cx.unassigned:
+            raise Unsupported("read of an uninitialised local")
+        return "f_" + n["referencedDecl"]["name"]
+    if k == "UnaryOperator" and n.get("opcode") == "-":
+        return "(FNeg %s)" % F(n["inner"][0], cx)
+    if k == "ConditionalOperator":
+        c, a, b = n["inner"]
+        return "(if nz %s then %s else %s)" % (E(c, cx), F(a, cx), F(b, cx))
+    if k == "CallExpr":
+        f = cast.strip(n["inner"][0])
+        fn = f.get("referencedDecl", {}).get("name") if f.get("kind") == "DeclRefExpr" else None
+        args = n["inner"][1:]
+        if fn == "ldexp" and len(args) == 2:
+            a = args[0]
+            while a.get("kind") == "ParenExpr":
+                a = a["inner"][-1]
+            if a.get("kind") in ("ImplicitCastExpr", "CStyleCastExpr") and a.get("castKind") == "IntegralToFloating":
+                return "(FLdexp %s %s)" % (E(a["inner"][-1], cx), E(args[1], cx))
+            raise Unsupported("ldexp of a non-integer")
+        if fn in ("__builtin_inff", "__builtin_inf", "__builtin_huge_valf", "__builtin_huge_val") and not args:
+            return "FInf"
+        if fn in ("__builtin_nanf", "__builtin_nan") and len(args) == 1:
+            a = cast.strip(args[0])
+            if a.get("kind") == "StringLiteral" and a.get("value") == '""':
+                return "FNan"
+        raise Unsupported("floating-point call")
+    raise Unsupported("floating-point expression " + str(k))
+
 def ptr_off(p, cx):
     """source + k -> (name, k)"""
     p = cast.strip(p)
@@ -174,14 +596,174 @@ def ptr_off(p, cx):
     if p.get("kind") == "BinaryOperator" and p.get("opcode") == "+":
         a, b = p["inner"]
         pa = ptr_off(a, cx)
-        b = cast.strip(b)
-        if pa and b.get("kind") == "IntegerLiteral":
-            return (pa[0], pa[1] + int(b["value"]))
+        v = const_eval(b)
+        if pa and v is not None and v >= 0:
+            return (pa[0], pa[1] + v)
     return None
+
+def comma_split(n):
+    """`a, b, c` (comma operators) -> [a, b, c]"""
+    if n.get("kind") == "BinaryOperator" and n.get("opcode") == ",":
+        return comma_split(n["inner"][0]) + comma_split(n["inner"][1])
+    if n.get("kind") == "ParenExpr":
+        return comma_split(n["inner"][-1])
+    return [n]
+
+def contains_kind(n, kinds):
+    if isinstance(n, dict):
+        if n.get("kind") in kinds:
+            return True
+        return any(contains_kind(c, kinds) for c in n.get("inner", []))
+    return False
+
+def assigned_in(n, names, declared, cx):
+    """names of the variables a statement assigns (=, op=, ++, --, address taken) / declares"""
+    if not isinstance(n, dict):
+        return
+    k = n.get("kind")
+    tgt = None
+    if (k == "BinaryOperator" and n.get("opcode") == "=") or k == "CompoundAssignOperator":
+        tgt = cast.strip(n["inner"][0])
+    elif k == "UnaryOperator" and n.get("opcode") in ("++", "--", "&"):
+        tgt = cast.strip(n["inner"][0])
+    if tgt is not None:
+        if tgt.get("kind") == "DeclRefExpr" and tgt["referencedDecl"].get("kind") in ("VarDecl", "ParmVarDecl"):
+            names.add(tgt["referencedDecl"]["name"])
+        else:
+            raise Unsupported("loop body stores through " + str(tgt.get("kind")))
+    if k == "VarDecl":
+        declared.add(n["name"])
+    for c in n.get("inner", []):
+        assigned_in(c, names, declared, cx)
+
+def local_update(s, cx):
+    """`x op= e`, `x++`, `x--` on an integer local as a statement -> (name, new value text), or None"""
+    k = s.get("kind")
+    if k == "UnaryOperator" and s.get("opcode") in ("++", "--"):
+        v = cast.strip(s["inner"][0])
+        if v.get("kind") != "DeclRefExpr" or v["referencedDecl"].get("kind") != "VarDecl" or v["referencedDecl"]["name"] not in cx.bound:
+            return None
+        name = v["referencedDecl"]["name"]
+        w, signed = width(ctype(v))
+        r = "(%s %s 1)" % (E(v, cx), "+" if s["opcode"] == "++" else "-")
+        return name, (r if signed else wrapz(w, r))
+    if k == "CompoundAssignOperator":
+        lhs, rhs = s["inner"]
+        v = cast.strip(lhs)
+        if v.get("kind") != "DeclRefExpr" or v["referencedDecl"].get("kind") not in ("VarDecl", "ParmVarDecl") or v["referencedDecl"]["name"] not in cx.bound:
+            return None
+        name = v["referencedDecl"]["name"]
+        w, signed = width(ctype(v))
+        if signed:
+            raise Unsupported("compound assignment to a signed local")
+        op = s["opcode"][:-1]
+        ev, er = E(v, cx), E(rhs, cx)
+        if op in ("+", "-", "*"):
+            return name, wrapz(w, "(%s %s %s)" % (ev, op, er))
+        if op in (">>", "<<"):
+            wl = max(w, 32)
+            lv = lit(rhs)
+            if not (lv is not None and 0 <= lv < wl):
+                cx.need("((0 <=? %s) && (%s <? %d))" % (er, er, wl))
+            return name, ("(Z.shiftr %s %s)" % (ev, er) if op == ">>" else wrapz(w, "(Z.shiftl %s %s)" % (ev, er)))
+        if op in ("/", "%"):
+            lv = lit(rhs)
+            if lv is None or lv == 0:
+                if not cx.ub:
+                    raise Unsupported("division by a non-literal")
+                cx.need("(nz %s)" % er)
+            return name, "(%s %s %s)" % (ev, "/" if op == "/" else "mod", er)
+        if op == "|":
+            return name, wrapz(w, "(Z.lor %s %s)" % (ev, er))
+        if op == "&":
+            return name, wrapz(w, "(Z.land %s %s)" % (ev, er))
+        raise Unsupported("compound assignment " + s["opcode"])
+    return None
+
+def is_ub_call(n, cx):
+    m = cast.strip(n)
+    if m.get("kind") != "CallExpr":
+        return False
+    f = cast.strip(m["inner"][0])
+    return f.get("kind") == "DeclRefExpr" and f["referencedDecl"]["name"] in cx.known_ub
+
+def ub_call(n, cx):
+    """a call of a ub-mode callee with in/out parameters -> (callee text, [names the outputs are bound to]) or None"""
+    m = cast.strip(n)
+    if m.get("kind") != "CallExpr":
+        return None
+    f = cast.strip(m["inner"][0])
+    if not (f.get("kind") == "DeclRefExpr" and f["referencedDecl"]["name"] in cx.known_ub):
+        return None
+    name = f["referencedDecl"]["name"]
+    kinds = cx.known_ub[name]
+    args = m["inner"][1:]
+    if len(args) != len(kinds):
+        raise Unsupported("call argument count")
+    parts, outs = [], []
+    for a, kd in zip(args, kinds):
+        if kd == "int":
+            parts.append(E(a, cx))
+        elif kd == "inout":
+            aa = cast.strip(a)
+            if aa.get("kind") == "UnaryOperator" and aa.get("opcode") == "&":
+                v = cast.strip(aa["inner"][0])
+                if v.get("kind") == "DeclRefExpr" and v["referencedDecl"].get("kind") == "VarDecl" and v["referencedDecl"]["name"] in cx.bound:
+                    nm = v["referencedDecl"]["name"]
+                    width(ctype(v))
+                    if nm in cx.unassigned:
+                        if not cx.indet:
+                            raise Unsupported("address of the uninitialised local %s passed to a callee" % nm)
+                        if nm not in cx.indet_params:
+                            cx.indet_params.append(nm)
+                        parts.append("(u_ %d)" % cx.indet_params.index(nm))
+                    else:
+                        parts.append("v_" + nm)
+                    outs.append("v_" + nm)
+                    continue
+            if aa.get("kind") == "DeclRefExpr" and aa["referencedDecl"]["name"] in cx.inouts:
+                parts.append("p_" + aa["referencedDecl"]["name"]); outs.append("p_" + aa["referencedDecl"]["name"])
+                continue
+            raise Unsupported("in/out argument")
+        else:
+            raise Unsupported("call argument kind")
+    if len(set(outs)) != len(outs):
+        raise Unsupported("the same variable passed twice by address")
+    return "(g%s %s)" % (name, " ".join(parts)), outs
+
+def call_stmt(call, target, rest, cx, ret):
+    """`target = f(&a, &b, e)` / `f(&a, &b, e)` as a statement (f in ub mode: None propagates)"""
+    if not cx.ub:
+        raise Unsupported("call of a ub-mode function from a function outside ub mode")
+    txt, outs = call
+    chk = cx.take()
+    for o in outs:
+        if o.startswith("v_"):
+            cx.unassigned.discard(o[2:])
+    if target is not None:
+        cx.unassigned.discard(target)
+    lets = "".join("let %s := o%d_ in\n  " % (o, i) for i, o in enumerate(outs))
+    if target is not None:
+        lets += "let v_%s := r_ in\n  " % target
+    pat = "(" + ", ".join(["r_"] + ["o%d_" % i for i in range(len(outs))]) + ")"
+    body = S(rest, cx, ret)
+    return guard(chk, "match %s with\n  | None => %s\n  | Some %s =>\n  %s%s\n  end" % (txt, cx.fail(), pat, lets, body), cx)
+
+def goto_code(tid, cx, ret):
+    """the code a forward goto continues with: from the label to the end of the function"""
+    if tid in cx.active_labels:
+        raise Unsupported("backward goto")
+    cx.active_labels.add(tid)
+    try:
+        return S(cx.labels[tid], cx, ret)
+    finally:
+        cx.active_labels.discard(tid)
 
 def S(stmts, cx, ret):
     """CPS translation of a statement list; `ret(e)` renders a return of expression text e"""
     if not stmts:
+        if cx.end_stack:
+            return cx.end_stack[-1]()
         raise Unsupported("control reaches the end of a non-void function")
     s, rest = stmts[0], stmts[1:]
     k = s.get("kind")
@@ -190,97 +772,300 @@ def S(stmts, cx, ret):
     if k == "CompoundStmt":
         return S([x for x in s.get("inner", [])] + rest, cx, ret)
     if k == "ReturnStmt":
+        if cx.loop_stack:
+            raise Unsupported("return inside a loop")
+        if cx.ret_mode == "ptr" and cx.granted:
+            r = s["inner"][0]
+            fin = ", ".join("s_" + f for f in cx.sfields[1]) if cx.sfields else ""
+            if is_null(r):
+                return "(%s, true%s)" % (cx.req or "None", ", " + fin if fin else "")
+            if is_request(r, cx):
+                nm = cast.strip(r)["referencedDecl"]["name"]
+                return "(q_%s, negb a_granted%s)" % (nm, ", " + fin if fin else "")
+            raise Unsupported("returned pointer")
+        if cx.ret_mode == "ptr":
+            e = P(s["inner"][0], cx)
+            return guard(cx.take(), e, cx)
+        if cx.ret_mode == "float":
+            e = F(s["inner"][0], cx)
+            return guard(cx.take(), ret(e), cx)
         cx.tailcall_pair = False
         e = E(s["inner"][0], cx)
+        chk = cx.take()
         if cx.tailcall_pair:
             if cx.stored:
                 raise Unsupported("tail call into an encoder after own stores")
             cx.tailcall_pair = False
-            return e
-        return ret(e)
+            return guard(chk, "(Some %s)" % e if cx.ub else e, cx)
+        return guard(chk, ret(e), cx)
     if k == "DeclStmt":
-        out = ""
+        out = []
         for d in s.get("inner", []):
             if d.get("kind") != "VarDecl":
                 raise Unsupported("declaration")
+            if d.get("storageClass"):
+                raise Unsupported("local with a storage class")
             init = [x for x in d.get("inner", []) if x.get("kind") not in ("FullComment",)]
+            t = ctype(d)
+            if t.startswith("union "):
+                fp = union_init(init[-1], cx) if init else None
+                if fp is None:
+                    raise Unsupported("union local")
+                cx.unions[d["name"]] = fp
+                continue
+            if t in FLOATS:
+                if cx.ret_mode != "float":
+                    raise Unsupported("floating-point local")
+                cx.flocals.add(d["name"]); cx.bound.add(d["name"])
+                if not init:
+                    cx.unassigned.add(d["name"])
+                    continue
+                out.append(("f_" + d["name"], F(init[-1], cx), cx.take()))
+                cx.unassigned.discard(d["name"])
+                continue
+            if t.endswith("*"):
+                if cx.ret_mode != "ptr" or not init:
+                    raise Unsupported("pointer local")
+                out.append(("q_" + d["name"], P(init[-1], cx), cx.take()))
+                cx.ptrlocals.add(d["name"])
+                if cx.granted:
+                    ii = cast.strip(init[-1])
+                    if cx.req is not None or not (ii.get("kind") == "CallExpr"):
+                        raise Unsupported("more than one allocator request / a pointer local that is not a request")
+                    cx.requests.add(d["name"]); cx.req = "q_" + d["name"]
+                continue
+            width(t)
             if not init:
-                raise Unsupported("uninitialised local")
-            out += "let v_%s := %s in\n  " % (d["name"], E(init[-1], cx))
-            cx.bound.add(d["name"])
-        return out + S(rest, cx, ret)
+                cx.unassigned.add(d["name"]); cx.bound.add(d["name"])
+                continue
+            if is_ub_call(init[-1], cx) and d is s.get("inner", [])[-1] and not out:
+                cx.bound.add(d["name"])
+                return call_stmt(ub_call(init[-1], cx), d["name"], rest, cx, ret)
+            out.append(("v_" + d["name"], E(init[-1], cx), cx.take()))
+            cx.bound.add(d["name"]); cx.unassigned.discard(d["name"])
+        txt = S(rest, cx, ret)
+        for nm, e, chk in reversed(out):
+            txt = guard(chk, "let %s := %s in\n  %s" % (nm, e, txt), cx)
+        return txt
     if k == "IfStmt":
         inner = [x for x in s["inner"]]
         c = E(inner[0], cx)
+        chk = cx.take()
         then = inner[1]
         els = inner[2] if len(inner) > 2 else None
+        snap = (set(cx.unassigned), set(cx.bound), dict(cx.unions), set(cx.ptrlocals), cx.stored, set(cx.status_set), cx.req, set(cx.requests))
         t = S([then] + rest, cx, ret)
+        cx.unassigned, cx.bound, cx.unions, cx.ptrlocals, cx.stored, cx.status_set = set(snap[0]), set(snap[1]), dict(snap[2]), set(snap[3]), snap[4], set(snap[5])
+        cx.req, cx.requests = snap[6], set(snap[7])
         e = S(([els] if els else []) + rest, cx, ret)
-        return "(if nz %s then\n  %s\n  else\n  %s)" % (c, t, e)
+        return guard(chk, "(if nz %s then\n  %s\n  else\n  %s)" % (c, t, e), cx)
+    if k == "CallExpr" and is_ub_call(s, cx):
+        return call_stmt(ub_call(s, cx), None, rest, cx, ret)
     if k == "BinaryOperator" and s.get("opcode") == "=":
         lhs, rhs = s["inner"]
         l = cast.strip(lhs)
+        if cx.granted:
+            tgt = None
+            if l.get("kind") == "UnaryOperator" and l.get("opcode") == "*":
+                tgt = cast.strip(l["inner"][0])
+            elif l.get("kind") == "MemberExpr" and l.get("isArrow"):
+                tgt = cast.strip(l["inner"][0])
+            if tgt is not None and tgt.get("kind") == "DeclRefExpr" and tgt["referencedDecl"]["name"] in cx.requests:
+                # a store into the freshly allocated block: not rendered (its content is not part of the outcome)
+                if contains_kind(rhs, ("CallExpr",)):
+                    raise Unsupported("call in a store into fresh memory")
+                return S(rest, cx, ret)
+            if l.get("kind") == "MemberExpr" and l.get("isArrow") and tgt.get("kind") == "DeclRefExpr" and cx.sfields and tgt["referencedDecl"]["name"] == cx.sfields[0]:
+                if l["name"] in cx.sfields[1]:
+                    er = E(rhs, cx)
+                    return "let s_%s := %s in\n  %s" % (l["name"], er, S(rest, cx, ret))
+                if l["name"] in cx.sfields[2]:
+                    if contains_kind(rhs, ("CallExpr",)):
+                        raise Unsupported("call in a pointer field update")
+                    return S(rest, cx, ret)      # pointer field: not rendered
+        if l.get("kind") == "UnaryOperator" and l.get("opcode") == "*":
+            pp = cast.strip(l["inner"][0])
+            if pp.get("kind") == "DeclRefExpr" and pp["referencedDecl"]["name"] in cx.inouts:
+                width(ctype(l))
+                er = E(rhs, cx)
+                chk = cx.take()
+                return guard(chk, "let p_%s := %s in\n  %s" % (pp["referencedDecl"]["name"], er, S(rest, cx, ret)), cx)
+            if cx.status and pp.get("kind") == "DeclRefExpr" and pp["referencedDecl"]["name"] == cx.status[0]:
+                cl = cast.strip(rhs)
+                if cl.get("kind") == "CompoundLiteralExpr" and cl.get("inner") and cl["inner"][0].get("kind") == "InitListExpr":
+                    vals = [x for x in cl["inner"][0].get("inner", [])]
+                    if len(vals) != len(cx.status[1]):
+                        raise Unsupported("compound literal does not initialise every field")
+                    es = [E(v, cx) for v in vals]
+                    chk = cx.take()
+                    for fn in cx.status[1]:
+                        cx.status_set.add(fn)
+                    lets = "".join("let t_%s := %s in\n  " % (fn, e) for fn, e in zip(cx.status[1], es))
+                    return guard(chk, lets + S(rest, cx, ret), cx)
+                raise Unsupported("assignment to the out-parameter")
+        if l.get("kind") == "MemberExpr" and l.get("isArrow") and cx.status:
+            b0 = cast.strip(l["inner"][0])
+            if b0.get("kind") == "DeclRefExpr" and b0["referencedDecl"]["name"] == cx.status[0] and l["name"] in cx.status[1]:
+                er = E(rhs, cx)
+                chk = cx.take()
+                cx.status_set.add(l["name"])
+                return guard(chk, "let t_%s := %s in\n  %s" % (l["name"], er, S(rest, cx, ret)), cx)
+        if l.get("kind") == "DeclRefExpr" and l["referencedDecl"]["name"] in cx.flocals:
+            er = F(rhs, cx)
+            chk = cx.take()
+            cx.unassigned.discard(l["referencedDecl"]["name"])
+            return guard(chk, "let f_%s := %s in\n  %s" % (l["referencedDecl"]["name"], er, S(rest, cx, ret)), cx)
+        if l.get("kind") == "DeclRefExpr" and l["referencedDecl"]["name"] in cx.bound and is_ub_call(rhs, cx):
+            width(ctype(l))
+            return call_stmt(ub_call(rhs, cx), l["referencedDecl"]["name"], rest, cx, ret)
         if l.get("kind") == "ArraySubscriptExpr":
             base, idx = l["inner"]
             b = cast.strip(base)
             if b.get("kind") == "DeclRefExpr" and b["referencedDecl"]["name"] in cx.buffers:
                 w, _ = width(ctype(l))
                 cx.stored = True
-                return "let stores := stores ++ [(%s, %s)] in\n  %s" % (E(idx, cx), E(rhs, cx), S(rest, cx, ret))
+                ei, er = E(idx, cx), E(rhs, cx)
+                chk = cx.take()
+                return guard(chk, "let stores := stores ++ [(%s, %s)] in\n  %s" % (ei, er, S(rest, cx, ret)), cx)
         if l.get("kind") == "MemberExpr" and l.get("isArrow"):
             b = cast.strip(l["inner"][0])
             if b.get("kind") == "DeclRefExpr" and b["referencedDecl"]["name"] == cx.result:
-                return "let r_%s := %s in\n  %s" % (l["name"], E(rhs, cx), S(rest, cx, ret))
-        if l.get("kind") == "DeclRefExpr":
-            return "let v_%s := %s in\n  %s" % (l["referencedDecl"]["name"], E(rhs, cx), S(rest, cx, ret))
+                er = E(rhs, cx)
+                chk = cx.take()
+                return guard(chk, "let r_%s := %s in\n  %s" % (l["name"], er, S(rest, cx, ret)), cx)
+        if l.get("kind") == "DeclRefExpr" and l["referencedDecl"]["name"] in cx.bound and l["referencedDecl"]["name"] not in cx.floats:
+            width(ctype(l))
+            er = E(rhs, cx)
+            chk = cx.take()
+            cx.unassigned.discard(l["referencedDecl"]["name"])
+            return guard(chk, "let v_%s := %s in\n  %s" % (l["referencedDecl"]["name"], er, S(rest, cx, ret)), cx)
         raise Unsupported("assignment target")
-    if k == "CompoundAssignOperator":
-        lhs, rhs = s["inner"]
-        l = cast.strip(lhs)
-        if l.get("kind") == "MemberExpr" and l.get("isArrow") and s.get("opcode") == "+=":
-            b = cast.strip(l["inner"][0])
-            if b.get("kind") == "DeclRefExpr" and b["referencedDecl"]["name"] == cx.result:
-                w, _ = width(ctype(l))
-                return "let r_%s := %s in\n  %s" % (l["name"], wrapz(w, "(r_%s + %s)" % (l["name"], E(rhs, cx))), S(rest, cx, ret))
+    if k == "CompoundAssignOperator" or (k == "UnaryOperator" and s.get("opcode") in ("++", "--")):
+        if k == "CompoundAssignOperator":
+            lhs, rhs = s["inner"]
+            l = cast.strip(lhs)
+            if l.get("kind") == "MemberExpr" and l.get("isArrow") and s.get("opcode") == "+=":
+                b = cast.strip(l["inner"][0])
+                if b.get("kind") == "DeclRefExpr" and b["referencedDecl"]["name"] == cx.result:
+                    w, _ = width(ctype(l))
+                    er = E(rhs, cx)
+                    chk = cx.take()
+                    return guard(chk, "let r_%s := %s in\n  %s" % (l["name"], wrapz(w, "(r_%s + %s)" % (l["name"], er)), S(rest, cx, ret)), cx)
+        if cx.sfields:
+            tgt0 = cast.strip(s["inner"][0])
+            if tgt0.get("kind") == "MemberExpr" and tgt0.get("isArrow"):
+                b0 = cast.strip(tgt0["inner"][0])
+                if b0.get("kind") == "DeclRefExpr" and b0["referencedDecl"]["name"] == cx.sfields[0] and tgt0["name"] in cx.sfields[1]:
+                    w = cx.sfields[1][tgt0["name"]]
+                    cur = "s_" + tgt0["name"]
+                    if k == "UnaryOperator":
+                        new = wrapz(w, "(%s %s 1)" % (cur, "+" if s["opcode"] == "++" else "-"))
+                    elif s.get("opcode") in ("+=", "-="):
+                        new = wrapz(w, "(%s %s %s)" % (cur, s["opcode"][0], E(s["inner"][1], cx)))
+                    else:
+                        raise Unsupported("compound assignment to a struct field")
+                    return "let %s := %s in\n  %s" % (cur, new, S(rest, cx, ret))
+        u = local_update(s, cx)
+        if u is not None:
+            chk = cx.take()
+            return guard(chk, "let v_%s := %s in\n  %s" % (u[0], u[1], S(rest, cx, ret)), cx)
         raise Unsupported("compound assignment")
-    if k == "WhileStmt":
-        cond, body = s["inner"]
-        # loop state: the locals the body updates (x++ / x >>= k / x = e)
-        updates = []
-        for b in body.get("inner", []):
-            bk = b.get("kind")
-            if bk == "UnaryOperator" and b.get("opcode") == "++":
-                v = cast.strip(b["inner"][0]); w, _ = width(ctype(v))
-                updates.append((v["referencedDecl"]["name"], wrapz(w, "(v_%s + 1)" % v["referencedDecl"]["name"])))
-            elif bk == "CompoundAssignOperator" and b.get("opcode") == ">>=":
-                v = cast.strip(b["inner"][0])
-                updates.append((v["referencedDecl"]["name"], "(Z.shiftr v_%s %s)" % (v["referencedDecl"]["name"], E(b["inner"][1], cx))))
-            else:
-                raise Unsupported("loop body statement")
-        names = [u[0] for u in updates]
-        if len(set(names)) != len(names):
-            raise Unsupported("loop updates a variable twice")
-        params = " ".join("v_" + n for n in names)
-        tup = "(" + ", ".join("v_" + n for n in names) + ")" if len(names) > 1 else "v_" + names[0]
-        # sequential semantics of the body: later updates see earlier ones
-        body_txt = ""
-        for n_, e_ in updates:
-            body_txt += "let v_%s := %s in " % (n_, e_)
+    if k == "LabelStmt":
+        return S([x for x in s.get("inner", []) if x.get("kind")] + rest, cx, ret)
+    if k == "GotoStmt":
+        tid = s.get("targetLabelDeclId")
+        if tid not in cx.labels:
+            raise Unsupported("goto to an unknown / backward label")
+        if cx.loop_stack:
+            fr = cx.loop_stack[-1]
+            fr["has_exit"] = True
+            code = fr["gotos"].setdefault(tid, 2 + len(fr["gotos"]))
+            return "(let x_exit := %d in %s)" % (code, fr["tup"])
+        return goto_code(tid, cx, ret)
+    if k == "BreakStmt":
+        if not cx.loop_stack:
+            raise Unsupported("break outside a loop")
+        fr = cx.loop_stack[-1]
+        fr["has_exit"] = True
+        return "(let x_exit := 1 in %s)" % fr["tup"]
+    if k == "ContinueStmt":
+        if not cx.loop_stack:
+            raise Unsupported("continue outside a loop")
+        return S(list(cx.loop_stack[-1]["inc"]), cx, ret)
+    if k in ("WhileStmt", "ForStmt"):
+        if cx.loop_stack:
+            raise Unsupported("nested loop")
+        if k == "WhileStmt":
+            cond, body = s["inner"]
+            init, inc = [], []
+        else:
+            parts = s["inner"]
+            if len(parts) != 5:
+                raise Unsupported("for statement shape")
+            init0, condvar, cond, inc0, body = parts
+            if condvar.get("kind"):
+                raise Unsupported("for with a condition variable")
+            if not cond.get("kind"):
+                raise Unsupported("for without a condition")
+            init = comma_split(init0) if init0.get("kind") else []
+            inc = comma_split(inc0) if inc0.get("kind") else []
+        if init:
+            # for (init; cond; inc) body  ==  init; while (cond) { body; inc }   (a declaration in init stays visible: names are unique here)
+            return S(init + [{"kind": "WhileStmt", "inner": [cond, {"kind": "CompoundStmt", "inner": [body]}], "_inc": inc}] + rest, cx, ret)
+        inc = inc or s.get("_inc", [])
+        body_stmts = [body]
+        names, declared = set(), set()
+        for st in body_stmts + inc:
+            assigned_in(st, names, declared, cx)
+        names -= declared
+        state = sorted(names)
+        if not state:
+            raise Unsupported("loop without state")
+        pre = ""
+        for nm in state:
+            if nm in cx.floats or nm not in cx.bound:
+                raise Unsupported("loop assigns " + nm)
+            if nm in cx.unassigned:
+                if not cx.indet:
+                    raise Unsupported("loop state variable %s has no value at loop entry" % nm)
+                if nm not in cx.indet_params:
+                    cx.indet_params.append(nm)
+                pre += "let v_%s := (u_ %d) in\n  " % (nm, cx.indet_params.index(nm))
+                cx.unassigned.discard(nm)
+        has_exit = cx.ub or contains_kind(body, ("GotoStmt", "BreakStmt"))
+        vs = ["v_" + n for n in state] + (["x_exit"] if has_exit else [])
+        tup = "(" + ", ".join(vs) + ")" if len(vs) > 1 else vs[0]
+        pat = "'" + tup if len(vs) > 1 else vs[0]
         cond_txt = E(cond, cx)
-        import re as _re
-        used = set(_re.findall(r"v_([A-Za-z_][A-Za-z_0-9]*)", cond_txt + body_txt))
-        extra = sorted(x for x in used if x in cx.bound and x not in names)
-        lname = "g%s_loop%d" % (cx.fname, len(cx.loops))
-        cx.loops.append(
-            "Fixpoint %s (fuel : nat) %s %s {struct fuel} :=\n  match fuel with O => %s | S fuel' =>\n    if nz %s then %s%s fuel' %s %s else %s end."
-            % (lname, " ".join("(v_%s : Z)" % x for x in extra), " ".join("(v_%s : Z)" % n for n in names), tup, cond_txt, body_txt, lname,
-               " ".join("v_" + x for x in extra), params, tup))
-        loop = "(let '%s := %s 65%%nat %s %s in\n  %s)" % (tup, lname, " ".join("v_" + x for x in extra), params, S(rest, cx, ret))
-        return loop
+        if cx.take():
+            raise Unsupported("definedness test in a loop condition")
+        fr = {"tup": tup, "inc": inc, "gotos": {}, "has_exit": has_exit}
+        snap = (set(cx.unassigned), set(cx.bound), dict(cx.unions), set(cx.ptrlocals), cx.stored)
+        cx.loop_stack.append(fr); cx.end_stack.append(lambda: tup)
+        try:
+            body_txt = S(body_stmts + list(inc), cx, ret)
+        finally:
+            cx.loop_stack.pop(); cx.end_stack.pop()
+        if fr["has_exit"] and not has_exit:
+            raise Unsupported("internal: exit discovered late")
+        cx.unassigned, cx.bound, cx.unions, cx.ptrlocals, cx.stored = set(snap[0]), set(snap[1]), dict(snap[2]), set(snap[3]), snap[4]
+        cond_fun = "(fun %s => %snz %s)" % (pat, "(x_exit =? 0) && " if has_exit else "", cond_txt)
+        body_fun = "(fun %s =>\n    %s)" % (pat, body_txt)
+        after = S(rest, cx, ret)
+        if has_exit:
+            for tid, code in sorted(fr["gotos"].items(), key=lambda kv: -kv[1]):
+                after = "(if x_exit =? %d then\n  %s\n  else\n  %s)" % (code, goto_code(tid, cx, ret), after)
+            if cx.ub:
+                after = "(if x_exit =? (-1) then None else\n  %s)" % after
+            pre += "let x_exit := 0 in\n  "
+        return "%s(let %s := wloop %s %s %s %s in\n  %s)" % (pre, pat, cx.fuel, cond_fun, body_fun, tup, after)
     raise Unsupported("statement " + str(k))
 
-def translate_function(src, incs, defs, name, known, kinds):
-    """kinds: per parameter 'int' | 'buffer' | 'source' | 'result'.  Returns Gallina definition text."""
+def translate_function(src, incs, defs, name, known, kinds, opts=None):
+    """kinds: per parameter 'int' | 'buffer' | 'source' | 'result' | 'f32' | 'f64' | 'ptr'.
+    opts: {'ub': True} -> option-valued (None = undefined behaviour); {'ret': 'ptr'} -> allocator request.
+    Returns Gallina definition text."""
+    opts = opts or {}
     docs = cast.ast_dump(src, incs, name, defs)
     fn, body = cast.function_body(docs, name)
     if fn is None:
@@ -291,11 +1076,61 @@ def translate_function(src, incs, defs, name, known, kinds):
     cx = Ctx(known)
     cx.src, cx.incs, cx.defs = src, incs, defs
     cx.fname = name
+    cx.ub = bool(opts.get("ub"))
+    cx.ret_mode = opts.get("ret", "int")
+    cx.granted = bool(opts.get("granted"))
+    cx.indet = bool(opts.get("indet"))
+    cx.fuel = opts.get("fuel", "65%nat")
+    top = [x for x in body.get("inner", [])]
+    for i, st in enumerate(top):
+        if st.get("kind") == "LabelStmt":
+            cx.labels[st.get("declId")] = top[i:]
     args = []
     for p, kd in zip(params, kinds):
         cx.bound.add(p["name"])
+        pt = ctype(p)
         if kd == "int":
+            width(pt)
             args.append("(v_%s : Z)" % p["name"])
+        elif kd in ("f32", "f64"):
+            if FLOATS.get(pt) != int(kd[1:]):
+                raise Unsupported("parameter %s is not a %s-bit float" % (p["name"], kd[1:]))
+            cx.floats[p["name"]] = int(kd[1:]); args.append("(v_%s : Z)" % p["name"])
+        elif kd == "ptr":
+            if not pt.endswith("*"):
+                raise Unsupported("parameter %s is not a pointer" % p["name"])
+            cx.ptrs.add(p["name"])
+        elif kd == "skip":
+            cx.skipped.add(p["name"])
+        elif kd.startswith("fields:"):
+            sname = kd.split(":", 1)[1]
+            if pt.replace(" ", "") != ("struct" + sname + "*"):
+                raise Unsupported("parameter %s is not a struct %s pointer" % (p["name"], sname))
+            ints, ptrs = {}, set()
+            for fn, ft in cx.struct_fields(sname):
+                if ft.strip().endswith("*"):
+                    ptrs.add(fn)
+                else:
+                    ints[fn] = width(ft)[0]
+            cx.sfields = (p["name"], ints, ptrs)
+            args += ["(s_%s : Z)" % fn for fn in ints]
+        elif kd == "inout":
+            if not pt.endswith("*"):
+                raise Unsupported("parameter %s is not a pointer" % p["name"])
+            width(pt[:-1].strip())
+            cx.inouts.append(p["name"]); args.append("(p_%s : Z)" % p["name"])
+        elif kd.startswith("bytes:"):
+            if pt.replace(" ", "") != "unsignedchar*":
+                raise Unsupported("parameter %s is not a byte pointer" % p["name"])
+            cx.bytes[p["name"]] = kd.split(":", 1)[1]; args.append("(v_%s : Z -> Z)" % p["name"])
+        elif kd.startswith("status:"):
+            sname = kd.split(":", 1)[1]
+            if pt.replace(" ", "") != ("struct" + sname + "*"):
+                raise Unsupported("parameter %s is not a struct %s pointer" % (p["name"], sname))
+            flds = cx.struct_fields(sname)
+            for fn, ft in flds:
+                width(ft)
+            cx.status = (p["name"], [fn for fn, ft in flds])
         elif kd == "buffer":
             cx.buffers.add(p["name"])
         elif kd == "source":
@@ -303,15 +1138,33 @@ def translate_function(src, incs, defs, name, known, kinds):
         elif kd == "result":
             cx.result = p["name"]; args += ["(r_read : Z)", "(r_status : Z)", "(r_required : Z)"]
     has_buf = bool(cx.buffers)
-    if cx.result:
-        ret = lambda e: "(%s, r_read, r_status, r_required)" % e
+    for b_, l_ in cx.bytes.items():
+        if l_ not in cx.bound:
+            raise Unsupported("length parameter " + l_)
+    cx.known_ub = known.get("__ub__", {})
+    if cx.inouts:
+        ret0 = lambda e: "(" + ", ".join([e] + ["p_" + n for n in cx.inouts]) + ")"
+    elif cx.status:
+        def ret0(e):
+            for fn in cx.status[1]:
+                if fn not in cx.status_set:
+                    raise Unsupported("return before the out-parameter is assigned")
+            return "(" + ", ".join([e] + ["t_" + fn for fn in cx.status[1]]) + ")"
+    elif cx.result:
+        ret0 = lambda e: "(%s, r_read, r_status, r_required)" % e
     elif has_buf:
-        ret = lambda e: "(%s, stores)" % e
+        ret0 = lambda e: "(%s, stores)" % e
     else:
-        ret = lambda e: e
+        ret0 = lambda e: e
+    ret = (lambda e: "(Some %s)" % ret0(e)) if cx.ub else ret0
     txt = S([body], cx, ret)
     pre = "let stores := @nil (Z * Z) in\n  " if has_buf else ""
-    return "\n".join(cx.loops + ["Definition g%s %s :=\n  %s%s." % (name, " ".join(args), pre, txt)])
+    if cx.granted:
+        args.append("(a_granted : bool)")
+    if cx.indet:
+        # the values of locals that are indeterminate where the function first uses them: an oracle, by index
+        args.append("(u_ : Z -> Z)")
+    return "Definition g%s %s :=\n  %s%s." % (name, " ".join(args), pre, txt)
 
 # (file, function, parameter kinds) in dependency order
 FUNCTIONS = [
@@ -354,18 +1207,33 @@ FUNCTIONS = [
     ("cbor/internal/loaders.c", "_cbor_load_uint32", ["source"]),
     ("cbor/internal/loaders.c", "_cbor_load_uint64", ["source"]),
     ("cbor/streaming.c", "claim_bytes", ["int", "int", "result"]),
+    # second wave (bridges in Bridge_leaf_alloc.v / Bridge_leaf_float.v)
+    ("cbor/internal/memory_utils.c", "_cbor_alloc_multiple", ["int", "int"], {"ret": "ptr"}),
+    ("cbor/internal/memory_utils.c", "_cbor_realloc_multiple", ["ptr", "int", "int"], {"ret": "ptr"}),
+    ("cbor/encoding.c", "cbor_encode_single", ["f32", "buffer", "int"]),
+    ("cbor/encoding.c", "cbor_encode_double", ["f64", "buffer", "int"]),
+    ("cbor/encoding.c", "cbor_encode_half", ["f32", "buffer", "int"], {"ub": True}),
+    ("cbor/internal/loaders.c", "_cbor_decode_half", ["source"], {"ret": "float"}),
+    ("cbor/internal/stack.c", "_cbor_stack_push", ["fields:_cbor_stack", "skip", "skip"], {"ret": "ptr", "granted": True}),
+    ("cbor/internal/unicode.c", "_cbor_unicode_decode", ["inout", "inout", "int"], {"ub": True}),
+    ("cbor/internal/unicode.c", "_cbor_unicode_codepoint_count", ["bytes:source_length", "int", "status:_cbor_unicode_status"],
+     {"ub": True, "indet": True, "fuel": "(S (Z.to_nat v_source_length))"}),
 ]
 
 def translate_all(cfg):
     incs, defs = cfg["incs"], cfg["defs"]
     known, out, notes = {}, [], []
-    for rel, name, kinds in FUNCTIONS:
+    for ent in FUNCTIONS:
+        rel, name, kinds = ent[:3]
+        opts = ent[3] if len(ent) > 3 else {}
         src = os.path.join(cast.REPO, "src", rel)
         try:
-            txt = translate_function(src, incs, defs, name, known, kinds)
+            txt = translate_function(src, incs, defs, name, known, kinds, opts)
             out.append((name, txt))
-            if all(k in ("int", "buffer") for k in kinds):
+            if all(k in ("int", "buffer") for k in kinds) and not opts:
                 known[name] = kinds
+            if all(k in ("int", "inout") for k in kinds) and opts.get("ub") and len(opts) == 1:
+                known.setdefault("__ub__", {})[name] = kinds
         except Unsupported as u:
             notes.append("%s: %s" % (name, u))
             out.append((name, None))
@@ -376,7 +1244,7 @@ def translate_all(cfg):
 
 def emit(fns):
     lines = ["(* GENERATED by translator/leaf.py from the clang AST of /repo/src — do not edit *)",
-             "From Coq Require Import ZArith List Bool.", "Import ListNotations.", "From CB Require Import GenLeafTypes.",
+             "From Coq Require Import ZArith List Bool.", "Import ListNotations.", "From CB Require Import PHalfShape GenLeafTypes.", "From CBGen Require Import Gen_utf8d Gen_config.",
              "Local Open Scope Z_scope.", "Local Open Scope bool_scope.", ""]
     for name, txt in fns:
         if txt is None:
